@@ -209,8 +209,111 @@ let parse_mop (s : string) : mop =
   | ["s"; a; b; v] -> MStore (n_of_int (ios a), n_of_int (ios b), n_of_int (ios v))
   | _ -> failwith ("bad mem op " ^ s)
 
+
+(* ---- IL lifter / emulator ------------------------------------------------------------- *)
+let reg_s (r : reg) : string =
+  match r with
+  | GA -> "A" | GB -> "B" | GBA -> "BA" | GIL -> "IL" | GIH -> "IH" | GI -> "I" | GX -> "X" | GY -> "Y"
+  | GU -> "U" | GS -> "S" | GPC -> "PC" | GF -> "F" | GFC -> "FC" | GFZ -> "FZ"
+  | GTEMP k -> "TEMP" ^ string_of_int (int_of_nat k)
+
+let sfx (w : n) : string = match int_of_n w with 1 -> ".b" | 2 -> ".w" | 3 -> ".l" | 4 -> ".error" | _ -> ""
+let fl_s (f : fspec) : string = match f with F0 -> "" | FZ -> "{Z}" | FCZ -> "{CZ}"
+let binop_s (o : binop) : string =
+  match o with
+  | B_ADD -> "ADD" | B_SUB -> "SUB" | B_AND -> "AND" | B_OR -> "OR" | B_XOR -> "XOR" | B_LSL -> "LSL" | B_LSR -> "LSR"
+  | B_ROR -> "ROR" | B_ROL -> "ROL" | B_CMP_E -> "CMP_E" | B_CMP_UGT -> "CMP_UGT" | B_CMP_SGT -> "CMP_SGT"
+  | B_CMP_SLT -> "CMP_SLT"
+
+let rec expr_s (e : expr) : string =
+  match e with
+  | EConst (w, v) -> Printf.sprintf "(CONST%s %d)" (sfx w) (int_of_z v)
+  | EConstPtr (w, v) -> Printf.sprintf "(CONST_PTR%s %d)" (sfx w) (int_of_z v)
+  | EReg (w, r) -> Printf.sprintf "(REG%s %s)" (sfx w) (reg_s r)
+  | EFlag c -> if c then "(FLAG C)" else "(FLAG Z)"
+  | ELoad (w, a) -> Printf.sprintf "(LOAD%s %s)" (sfx w) (expr_s a)
+  | EBin (o, w, f, a, b) -> Printf.sprintf "(%s%s%s %s %s)" (binop_s o) (sfx w) (fl_s f) (expr_s a) (expr_s b)
+  | ERotC (l, w, f, a, n, ci) ->
+      Printf.sprintf "(%s%s%s %s %s %s)" (if l then "RLC" else "RRC") (sfx w) (fl_s f) (expr_s a) (expr_s n) (expr_s ci)
+  | EPop w -> Printf.sprintf "(POP%s)" (sfx w)
+  | EUnimpl -> "(UNIMPL)"
+
+let il_text (prog : stmt list) : string =
+  let labels = Hashtbl.create 8 in
+  let lab (l : nat) : string =
+    let k = int_of_nat l in
+    match Hashtbl.find_opt labels k with
+    | Some s -> s
+    | None -> let s = "L" ^ string_of_int (Hashtbl.length labels) in Hashtbl.add labels k s; s in
+  let stmt_s (st : stmt) : string =
+    match st with
+    | SSetReg (w, r, e) -> Printf.sprintf "(SET_REG%s %s %s)" (sfx w) (reg_s r) (expr_s e)
+    | SSetFlag (c, e) -> Printf.sprintf "(SET_FLAG %s %s)" (if c then "C" else "Z") (expr_s e)
+    | SStore (w, a, e) -> let sa = expr_s a in Printf.sprintf "(STORE%s %s %s)" (sfx w) sa (expr_s e)
+    | SPush (w, e) -> Printf.sprintf "(PUSH%s %s)" (sfx w) (expr_s e)
+    | SJump e -> Printf.sprintf "(JUMP %s)" (expr_s e)
+    | SCall e -> Printf.sprintf "(CALL %s)" (expr_s e)
+    | SRet e -> Printf.sprintf "(RET %s)" (expr_s e)
+    | SNop -> "(NOP)"
+    | SUnimpl -> "(UNIMPL)"
+    | SIntr k -> "(INTRINSIC " ^ (match k with IN_TCL -> "TCL" | IN_HALT -> "HALT" | IN_OFF -> "OFF" | IN_RESET -> "RESET") ^ ")"
+    | SExpr e -> expr_s e
+    | SIf (c, t, f) -> let sc = expr_s c in let st = lab t in let sf = lab f in Printf.sprintf "(IF %s %s %s)" sc st sf
+    | SGoto l -> Printf.sprintf "(GOTO %s)" (lab l)
+    | SLabel l -> Printf.sprintf "(LABEL %s)" (lab l) in
+  String.concat " " (List.map stmt_s prog)
+
+let il_case (w : string list) : string =
+  let bs = bytes_of_hex (List.nth w 0) in
+  let addr = z_of_int (ios (List.nth w 1)) in
+  match dec_decode bs with
+  | DOk i ->
+      (match il_lift i addr with
+       | Some prog -> Printf.sprintf "OK %d %s" (int_of_nat i.i_len) (il_text prog)
+       | None -> "LERR")
+  | DShort | DInvalid -> "DNONE"
+  | DAssert -> "DERR AssertionError"
+  | DNotImpl -> "DERR NotImplementedError"
+
+let parse_kv (s : string) : (string * int) list =
+  if s = "-" || s = "" then [] else
+  List.map (fun t -> match split_on '=' t with [k; v] -> (k, ios v) | _ -> failwith ("bad kv " ^ t)) (split_on ',' s)
+
+let exec_state (w : string list) : z * mstate =
+  let code = bytes_of_hex (List.nth w 0) in
+  let addr = ios (List.nth w 1) in
+  let regs = parse_kv (List.nth w 2) in
+  let mem0 = List.map (fun (k, v) -> (z_of_int (ios k), z_of_int v)) (parse_kv (List.nth w 3)) in
+  let codemem = List.mapi (fun i b -> (z_of_int (addr + i), z_of_int (int_of_n b))) code in
+  let g k = n_of_int (try List.assoc k regs with Not_found -> 0) in
+  let temps = List.init 14 (fun i -> g ("TEMP" ^ string_of_int i)) in
+  (z_of_int addr, il_mk_state (g "BA") (g "I") (g "X") (g "Y") (g "U") (g "S") (g "F") temps (codemem @ mem0) (z_of_int (if List.length w > 4 then ios (List.nth w 4) else 0)))
+
+let show_exec (log : bool) (r : xres) : string =
+  match r with
+  | XLiftError -> "ERR lift"
+  | XFault -> "ERR eval"
+  | XFuel -> "ERR fuel"
+  | XOk s ->
+      let rs = List.map int_of_n (il_obs_regs s) in
+      let nm = ["pc"; "ba"; "i"; "x"; "y"; "u"; "s"; "f"] in
+      let regs = String.concat " " (List.map2 (fun k v -> Printf.sprintf "%s=%d" k v) nm rs) in
+      let ws = String.concat "," (List.map (fun (a, v) -> Printf.sprintf "%d=%d" (int_of_z a) (int_of_z v)) (il_obs_writes s)) in
+      let base = Printf.sprintf "OK %s halted=%s | w:%s" regs (b2s (il_halted s)) ws in
+      if log then
+        base ^ " | r:" ^ String.concat "," (List.map (fun a -> string_of_int (int_of_z a)) (il_rlog s))
+             ^ " | wl:" ^ String.concat "," (List.map (fun a -> string_of_int (int_of_z a)) (il_wlog s))
+      else base
+
+let exec_case (log : bool) (w : string list) : string =
+  let (addr, s) = exec_state w in
+  show_exec log (il_exec_at addr s)
+
 let handle (w : string list) : string =
   match w with
+  | "il" :: rest -> il_case rest
+  | "exec_py" :: rest -> exec_case true rest
+  | "exec1" :: rest -> exec_case false rest
   | "mem_py" :: cfg :: ops -> show_nl (mem_py_run (parse_memcfg false cfg) (List.map parse_mop ops))
   | "mem_rs" :: cfg :: ops -> show_nl (mem_rs_run (parse_memcfg true cfg) (List.map parse_mop ops))
   | "sched" :: clock0 :: budgets :: tasks -> sched_case clock0 budgets tasks
